@@ -103,6 +103,83 @@ class Path:
         return s
 
 
+class SplicedPath(Path):
+    """A path of a caller with the paths of a helper spliced in at the helper's call: the helper's elements and
+    branch atoms appear in place, its parameters replaced by the call's arguments."""
+
+    def __init__(self, outer, elems, atoms):
+        Path.__init__(self, outer.fn)
+        self.blocks = list(outer.blocks)
+        self.decisions = dict(outer.decisions)
+        self.end = outer.end
+        self.end_block = getattr(outer, "end_block", None)
+        self._elems = elems
+        self.atoms = atoms
+
+    def copy(self):
+        q = SplicedPath(self, list(self._elems), list(self.atoms))
+        return q
+
+    def elems(self):
+        for b, n in self._elems:
+            yield b, n
+
+
+def splice_helpers(fb, pths, is_helper, depth=1):
+    """Replace calls of helpers (is_helper(callee Function) -> bool) on each path by the helper's own paths."""
+    from .facts import substitute, effective_call
+    out = []
+    for p in pths:
+        els = list(p.elems())
+        idx = None
+        for i, (b, n) in enumerate(els):
+            if n.get("k") == "call":
+                g = fb.resolve_call(n)
+                if g is not None and g.cfg_raw and g.key != p.fn.key and is_helper(g):
+                    # only whole-statement calls (the element is not nested in another element of the path)
+                    idx = (i, n, g)
+                    break
+        if idx is None:
+            out.append(p)
+            continue
+        i, call, g = idx
+        args = effective_call(call).get("args", [])
+        mapping = {prm["decl"]: a for prm, a in zip(g.params, args)}
+        hp = [q for q in enumerate_paths(g) if q.end == "exit"]
+        if not hp or len(hp) > 200:
+            out.append(p)
+            continue
+        # the caller's atoms are not positioned; keep them all in front (they hold for the whole path)
+        for q in hp:
+            qel = []
+            for b2, n2 in q.elems():
+                if n2.get("k") == "return":
+                    continue
+                n3 = substitute(n2, mapping)
+                if n3 is n2:
+                    n3 = dict(n2)
+                n3["_site"] = call.get("id")  # where, in the caller, this element runs
+                qel.append((els[i][0], n3))
+            qat = []
+            for a in q.atoms:
+                if a[0] == "cmp":
+                    l, r = substitute(a[4], mapping), substitute(a[5], mapping)
+                    qat.append(("cmp", canon(l), a[2], canon(r), l, r))
+                elif a[0] == "truth":
+                    n3 = substitute(a[3], mapping)
+                    qat.append(("truth", canon(n3), a[2], n3))
+                elif a[0] == "switch":
+                    c3 = substitute(a[4], mapping) if a[4] is not None else None
+                    qat.append(("switch", canon(c3) if c3 is not None else a[1], a[2], a[3], c3))
+                else:
+                    qat.append(a)
+            sp = SplicedPath(p, els[:i + 1] + qel + els[i + 1:], list(p.atoms) + qat)
+            out.append(sp)
+    if depth > 1:
+        return splice_helpers(fb, out, is_helper, depth - 1)
+    return out
+
+
 def is_null_value(e):
     """The expression is a null pointer / empty smart pointer: nullptr, 0, or a default-constructed
     object, possibly wrapped in conversions and copy/move constructions."""
